@@ -455,6 +455,8 @@ func runL3(args []string) {
 		}
 		var gerr error
 		panicked := ""
+		again := false
+		var againErr error
 		warm := cr.Chance(1, 2)
 		if warm {
 			dist["run-before-with-other-layout"]++
@@ -480,7 +482,13 @@ func runL3(args []string) {
 				db.Query(context.Background(), stmt, qargs...).Run()
 			}
 			st.SetScript(fakedrv.Script{Columns: colNames, Rows: [][]driver.Value{rowVals}})
-			gerr = db.Query(context.Background(), stmt, qargs...).Get(dests...)
+			qo := db.Query(context.Background(), stmt, qargs...)
+			gerr = qo.Get(dests...)
+			if gerr != nil {
+				// the same Query read once more: the same result set is refused again
+				again = true
+				againErr = qo.Get(dests...)
+			}
 		}()
 		caseJSON := map[string]any{"q": hx(q), "text": printable(q), "cols": colNames, "row": rowJ, "dests": fmt.Sprintf("%#v", dests), "note": note}
 		kb, _ := json.Marshal([]any{q, colNames, rowJ, before})
@@ -511,6 +519,11 @@ func runL3(args []string) {
 			rep.Samples = append(rep.Samples, map[string]any{"case": caseJSON, "impl": obs})
 		}
 		holds := map[string]bool{"C06": getBool(resp, "c06")}
+		if again && againErr == nil && panicked == "" {
+			holds["C06"] = false
+			rep.addHolds("C06", Finding{Case: caseJSON, Kind: "holds", Detail: "a read that failed (" + gerr.Error() + ") returned no error when the same Query was read again: the row was mapped partially",
+				Holds: holds, Impl: obs, Model: resp["model"]})
+		}
 		if !holds["C06"] {
 			rep.addHolds("C06", Finding{Case: caseJSON, Kind: "holds", Detail: fmt.Sprint("row values did not land as the scan specification says: ", resp["diff"]),
 				Holds: holds, Impl: obs, Model: resp["model"]})
